@@ -79,6 +79,19 @@ def run(rep, tier, seed):
             sample = strings if (tier != 'quick' or len(code) <= 2) else rnd.sample(strings, 40)
             for s in sample:
                 one(b, list(o), s, L if (len(s) + len(o)) % 2 else R, 'exhaustive')
+    # a Ruler built on a rule list that is still empty, rules appended to that list afterwards (a context provisioned after the manager
+    # was created): the lookup goes by the rules the list holds NOW, exactly as it does for a list that was never empty
+    for k in range(60 if tier == 'quick' else 600):
+        ids = prefix_free_ids(rnd, rnd.randint(1, 4))
+        live = []
+        ruler = Ruler(live)
+        one(b, [], randbits(rnd, 9), L, 'grown-from-empty', shared=(live, ruler))
+        done = []
+        for i_ in ids:
+            live.append(no_compression_rule(i_, rnd.choice([L, R])))
+            done.append(i_)
+            s_ = rnd.choice(done) + randbits(rnd, rnd.randint(0, 12)) if rnd.random() < 0.8 else randbits(rnd, rnd.randint(0, 12))
+            one(b, list(done), s_, rnd.choice([L, R]), 'grown-from-empty', shared=(live, ruler))
     # the empty rule set (a context that is being provisioned) is a prefix-free set too: no id is a prefix of anything
     for s in strings[:64] + [randbits(rnd, 200)]:
         one(b, [], s, L if len(s) % 2 else R, 'empty-rule-set')
